@@ -172,15 +172,16 @@ type Link struct {
 }
 
 type Input struct {
-	Rel        string  `json:"rel"`
-	Single     bool    `json:"single"`                // db.Model(&owner) instead of db.Model(&owners)
-	FullSave   bool    `json:"full_save,omitempty"`   // Session{FullSaveAssociations: true}: targets are upserted with ALL their columns
-	SameHandle bool    `json:"same_handle,omitempty"` // ONE *Association (db.Model(..).Association(rel)) is kept and used for every operation, Count and Find of the history
-	Owners     []int64 `json:"owners"`                // handle
-	Outside    []int64 `json:"outside"`               // other owner rows
-	Targets    []int64 `json:"targets"`               // existing rows of the target table
-	Links      []Link  `json:"links"`                 // existing links of OUTSIDE owners (has-kinds: target's fk; belongs: owner's fk; m2m: join row)
-	Ops        []OpIn  `json:"ops"`
+	Rel         string  `json:"rel"`
+	Single      bool    `json:"single"`                 // db.Model(&owner) instead of db.Model(&owners)
+	FullSave    bool    `json:"full_save,omitempty"`    // Session{FullSaveAssociations: true}: targets are upserted with ALL their columns
+	OmitTargets bool    `json:"omit_targets,omitempty"` // Omit("Rel.*"): only links are written, the (existing) targets are not upserted
+	SameHandle  bool    `json:"same_handle,omitempty"`  // ONE *Association (db.Model(..).Association(rel)) is kept and used for every operation, Count and Find of the history
+	Owners      []int64 `json:"owners"`                 // handle
+	Outside     []int64 `json:"outside"`                // other owner rows
+	Targets     []int64 `json:"targets"`                // existing rows of the target table
+	Links       []Link  `json:"links"`                  // existing links of OUTSIDE owners (has-kinds: target's fk; belongs: owner's fk; m2m: join row)
+	Ops         []OpIn  `json:"ops"`
 }
 
 // ---------------------------------------------------------------- observation
@@ -424,6 +425,9 @@ func (e *Env) run(in Input) Result {
 	base := db
 	if in.FullSave {
 		base = db.Session(&gorm.Session{FullSaveAssociations: true})
+	}
+	if in.OmitTargets {
+		base = base.Omit(r.Name + ".*")
 	}
 	handle := func() *gorm.Association {
 		if !in.SameHandle {
@@ -771,7 +775,7 @@ func genInput(r *lib.Rng, maxOps int, edge bool) Input {
 
 func shapeOf(in Input) string {
 	var sb strings.Builder
-	fmt.Fprintf(&sb, "%s|full=%v|same=%v|single=%v|o%d|out%d|t%d|l%d|", in.Rel, in.FullSave, in.SameHandle, in.Single, len(in.Owners), len(in.Outside), len(in.Targets), len(in.Links))
+	fmt.Fprintf(&sb, "%s|full=%v|same=%v|single=%v|o%d|out%d|t%d|l%d|", in.Rel+fmt.Sprint("|omit=", in.OmitTargets), in.FullSave, in.SameHandle, in.Single, len(in.Owners), len(in.Outside), len(in.Targets), len(in.Links))
 	for _, o := range in.Ops {
 		u := ""
 		if o.Unscoped {
@@ -997,6 +1001,19 @@ func main() {
 		}
 		in.SameHandle = same
 		in.FullSave = r.Chance(1, 6)
+		if rels[in.Rel].Kind == "KM2M" && !in.FullSave && r.Chance(1, 5) {
+			// Omit("Rel.*"): the targets themselves are not saved, so only existing records are passed
+			in.OmitTargets = true
+			for oi := range in.Ops {
+				for vi := range in.Ops[oi].Vals {
+					for ti, t := range in.Ops[oi].Vals[vi] {
+						if t == 0 {
+							in.Ops[oi].Vals[vi][ti] = lib.Pick(r, in.Targets)
+						}
+					}
+				}
+			}
+		}
 		kind := "main"
 		if edge {
 			kind = "edge"
